@@ -5,6 +5,7 @@ package main
 import (
 	"fmt"
 	"os"
+	"runtime/debug"
 
 	"verifharness/checks"
 	"verifharness/report"
@@ -40,7 +41,29 @@ var registry = map[string]check{
 // subcommands registered by optional (build-tagged) files.
 var subcommands = map[string]func([]string) int{}
 
+// builtAgainst returns the directory the module under test was taken from when this binary was built.
+func builtAgainst() string {
+	bi, ok := debug.ReadBuildInfo()
+	if !ok {
+		return ""
+	}
+	for _, d := range bi.Deps {
+		if d.Path == "github.com/jrhy/mast" && d.Replace != nil {
+			return d.Replace.Path
+		}
+	}
+	return ""
+}
+
 func main() {
+	// the binary must have been built from the tree it is asked to judge (run.sh rebuilds on every invocation;
+	// a stale or mis-pointed build would silently judge another copy)
+	if want := os.Getenv("VERIF_REPO"); want != "" {
+		if got := builtAgainst(); got != "" && got != want {
+			fmt.Printf("HARNESS-ERROR: this binary was built against %s, not against %s\n", got, want)
+			os.Exit(2)
+		}
+	}
 	if len(os.Args) < 2 {
 		fmt.Println("usage: mc <property-id> | replay <file>")
 		os.Exit(2)
